@@ -98,6 +98,16 @@ class Derive(Stream):
             cs.append(self.case(rng, "boundary", k=v * 16, opc="", op=v * 16, rand=v * 16, autn=v * 16))
         for i in range(6 if not big else 300):
             cs.append(self.case(rng, "random", opc=rng.choice(["", rnd16()])))
+        # subscribers that share ONE component (the operator's OP, a K, a RAND, an OPc) and differ in the others, within one
+        # process: a result may depend on nothing but its own arguments
+        for shared in ("op", "k", "rand", "opc"):
+            first = self.case(rng, "shared-" + shared, opc="" if shared in ("op", "k", "rand") else rnd16())
+            cs.append(first)
+            for j in range(3 if not big else 12):
+                c = self.case(rng, "shared-" + shared, opc="" if shared != "opc" else first["opc"])
+                c[shared] = first[shared]
+                cs.append(c)
+            cs.append(dict(first))      # and the first one again
         return cs
 
 
